@@ -194,6 +194,45 @@ func c10Validation(c *eng.Ctx, ns *ssa.Function) {
 		}
 		return call, o.Pkg != nil && o.Pkg.Pkg.Path() == "slices" && o.Name() == name
 	}
+	// (the final steps -- sort, compact, reject empty names -- may be done by
+	// a helper whose results the collection hands on: they are then judged there)
+	{
+		var hc *ssa.Call
+		all := true
+		ei := errResultIndex(sn)
+		for _, r := range eng.Returns(sn) {
+			rv := eng.RetVals(r)
+			if ei < 0 || !eng.IsNilConst(eng.Origin(rv[ei])) {
+				continue // an error return (its own, or the helper's error handed on)
+			}
+			nl := namesReturned(r, "names")
+			if nl == nil {
+				continue
+			}
+			cc, idx := eng.TupleCall(nl)
+			if cc == nil || idx != 0 || !eng.IsHelper(sn, eng.Callee(&cc.Call)) || (hc != nil && hc != cc) {
+				all = false
+				continue
+			}
+			hc = cc
+			// the helper's error is what the collection answers with here, or is known nil
+			okErr := eng.Same(rv[ei], saveErr(cc))
+			for _, cond := range eng.FactsAt(r) {
+				if v, isNil, isE := cond.ErrCheck(); isE && isNil && eng.Same(v, saveErr(cc)) {
+					okErr = true
+				}
+			}
+			if !okErr {
+				all = false
+			}
+		}
+		if hc != nil && all {
+			h := eng.Callee(&hc.Call)
+			if errResultIndex(h) >= 0 && h.Signature.Results().Len() == 2 {
+				sn = h
+			}
+		}
+	}
 	snErr := errResultIndex(sn)
 	for _, r := range eng.Returns(sn) {
 		rv := eng.RetVals(r)
